@@ -290,7 +290,7 @@ class Tx:
     operands = [e.left] + list(e.comparators)
     tr = []
     for o in operands:
-      if isinstance(o, ast.List) and all(isinstance(x, ast.Constant) and isinstance(x.value, str) for x in o.elts):
+      if isinstance(o, (ast.List, ast.Tuple, ast.Set)) and all(isinstance(x, ast.Constant) and isinstance(x.value, str) for x in o.elts):
         tr.append(('strlist', '[%s]' % '; '.join('"%s"%%string' % x.value.replace('"', '""') for x in o.elts)))
       else:
         tr.append(self.ex(o))
